@@ -93,6 +93,15 @@ def snapshot_globals():
         out["schema:" + n] = canon({"c_param": {k: [repr(t) if not isinstance(t, (type, types.FunctionType)) else canon(t) for t in v] if isinstance(v, tuple) else repr(v)
                                                  for k, v in c.c_param.items()},
                                     "c_default": c.c_default, "c_allowed_values": c.c_allowed_values})
+    def defaults_of(fn, label):
+        # mutable default arguments are process-wide static objects too
+        for i, d in enumerate(getattr(fn, "__defaults__", None) or ()):
+            if isinstance(d, (dict, list, set)):
+                out["default:%s#%d" % (label, i)] = canon(d)
+        for k, d in (getattr(fn, "__kwdefaults__", None) or {}).items():
+            if isinstance(d, (dict, list, set)):
+                out["default:%s#%s" % (label, k)] = canon(d)
+
     for name, mod in sorted(sys.modules.items()):
         if mod is None or not name.startswith("idpyoidc"):
             continue
@@ -100,6 +109,13 @@ def snapshot_globals():
             if k.isupper() or (k[:1].isupper() and k.upper() == k):
                 if isinstance(v, (dict, list, set, tuple, frozenset)):
                     out["const:%s.%s" % (name, k)] = canon(v)
+            if isinstance(v, types.FunctionType) and getattr(v, "__module__", None) == name:
+                defaults_of(v, "%s.%s" % (name, k))
+            elif isinstance(v, type) and getattr(v, "__module__", None) == name:
+                for mk, mv in sorted(vars(v).items()):
+                    f = mv.__func__ if isinstance(mv, (staticmethod, classmethod)) else mv
+                    if isinstance(f, types.FunctionType):
+                        defaults_of(f, "%s.%s.%s" % (name, k, mk))
     return out
 
 
@@ -200,7 +216,9 @@ def make_oidc():
     from idpyoidc.server.oauth2.authorization import validate_resource_indicators_policy as arp
     eps = {"authorization": {"resource_indicators": {"policy": {"function": arp, "kwargs": {}}}},
            "userinfo": {"client_authn_method": ["bearer_header", "bearer_body"], "add_claims_by_scope": True}}
-    return srv.make_server(clients=CLIENTS, client_over=client_overrides(), authz=copy.deepcopy(srv_c13.AUTHZ), endpoints=eps)
+    return srv.make_server(clients=CLIENTS, client_over=client_overrides(), authz=copy.deepcopy(srv_c13.AUTHZ), endpoints=eps,
+                           add_ons={"dpop": {"function": "idpyoidc.server.oauth2.add_on.dpop.add_support",
+                                             "kwargs": {"dpop_signing_alg_values_supported": ["ES256"]}}})
 
 
 def make_oauth2():
@@ -294,6 +312,36 @@ def make_exec(server, clock, oidc):
                     return ["ok", "re-registered"]
                 return ["ok", "registered"]
             return ["err", (res.get("error") if isinstance(res, dict) else str(res))]
+
+        def op_token_dpop(self, ref, cref):
+            """code redemption with a DPoP proof (the add-on is enabled on the OIDC provider): a fresh client key per request"""
+            from cryptojwt.jwk.ec import new_ec_key
+            from idpyoidc.server.oauth2.add_on.dpop import DPoPProof
+            from idpyoidc.time_util import utc_time_sans_frac
+            cid, _ = self.client(cref)
+            ep = self.server.get_endpoint("token")
+            self.nonce += 1
+            key = new_ec_key(crv="P-256")
+            proof = DPoPProof(typ="dpop+jwt", alg="ES256", jwk=key.serialize(), jti="jti-%d" % self.nonce, htm="POST",
+                              htu=ep.full_path, iat=utc_time_sans_frac())
+            proof.key = key
+            req = self._client_auth(cref, {"grant_type": "authorization_code", "code": self.tok(ref), "redirect_uri": self.redirect(cid)})
+            hi = {"headers": {"dpop": proof.create_header()}, "url": ep.full_path, "method": "POST"}
+            p = ep.parse_request(req, http_info=hi)
+            e = self.err(p)
+            if e:
+                return ["err", e]
+            res = ep.process_request(p)
+            ra = res.get("response_args") if isinstance(res, dict) and "response_args" in res else res
+            e = self.err(ra)
+            if e:
+                return ["err", e]
+            out = {}
+            for k in ("access_token", "refresh_token", "id_token"):
+                if k in ra:
+                    out[k] = self.note(ra[k], k, cref)
+            out["token_type"] = ra.get("token_type")
+            return ["ok", out]
 
         def op_authz_bad(self, kind):
             req = {"client_id": "client_1", "redirect_uri": self.redirect("client_1"), "response_type": "code",
@@ -399,6 +447,8 @@ def next_op(rng, P, oidc):
             return ("token_res", ref, c, rng.choice([None, ["client_2"], ["client_1"], ["client_3", "client_2"], ["https://x.example.org"]]))
         if rng.random() < 0.1:
             return ("token_badsecret", ref, c)
+        if rng.random() < 0.2:
+            return ("token_dpop", ref, c)
         return ("token", ref, c, (rng.randint(1, 10 ** 6) if c == "client_2" else None), owner(ref, 0.0))
     if r < 0.52:
         ref = pick("refresh_token")
